@@ -40,6 +40,17 @@ CLAIMED = {
          'deadc_range; the five keywords in PRIMARY/EVENTS/GTI are compared with the model and with the documented values on real xEventSelect runs (one/two-sided windows, empty windows, '
          'both algorithms, two-step histories).',
          'Lean kernel + Mathlib (ℝ); axioms propext/Classical.choice/Quot.sound; model + generators; the row mask is C09; float rounding outside the model (1e-9 relative).'),
+ 'C08': ('proof', 'Lean 4 theorems about a model of numpy.histogram bin assignment on order-preserving keys, tied by exact differential correspondence through the real xpbin',
+         'binIndexGo_sound/_total (each value in [first, last edge] gets exactly the bin containing it, last bin closed), hist_total (nothing lost or double counted), '
+         'half-open and (emin,emax] adjacent-bin partitions and disjointness, pha_valid_channel/pha_negative_channel on the half-integer channel edges; per-bin counts of LC, PP, PHA1, CMAP '
+         'written by the real xpbin compared exactly with the model on files with events on and next to every edge, plus merge/EQP/map-cube oracles.',
+         'Lean kernel; model + generators; astropy.wcs (projection) abstract — the model starts at the pixel coordinates; numpy.linspace/logspace for the edges; astropy I/O. '
+         'PCUBE (emin,emax] vs map-cube [emin,emax) conventions differ on an event exactly on an edge: both contain it, not judged.'),
+ 'C13': ('proof', 'Lean 4 theorems about the generated ebounds formulas/tables and a searchsorted model, tied by translator + exact correspondence + exhaustive rmf enumeration',
+         'e2c_contains/e2c_in_range (binary search on the 375-channel grid returns the channel whose bounds contain the energy), table_consistent, pkg_roundtrip, pkg_channel_contains, '
+         'digitized_energy_in_channel (ENERGY inside the rounded PHA channel for any nearest rounding), centre_in_channel, rintHalf_close; every distinct rmf in the CALDB checked over all channels; '
+         'the chain PHA/PI/ENERGY/MC_* on simulated files incl. charging; the energy used by xpselect/xpbin.',
+         'Lean kernel + Mathlib; translator; EBOUNDS tables are data (enumerated); FITPACK linear spline for channel_to_energy of the rmf; float32 storage tolerance 3e-6 keV.'),
 }
 NOT_YET = 'check not built yet in this round (work in progress; see DESIGN.md section 7 for the planned model and theorems)'
 
